@@ -33,6 +33,90 @@ def run(ctx):
     ctx.rule('R09.7', 'stores/executors indexed only by id % num_shards; Merge routed to the destination owner')
     ctx.floor('R09.7', n, 7)
     r8(ctx)
+    r9(ctx)
+    r10(ctx)
+
+
+DROPPING = ('take', 'skip', 'take_while', 'skip_while', 'map_while', 'step_by', 'filter', 'rev', 'dedup', 'dedup_by_key',
+            'unique', 'nth', 'last', 'first', 'get', 'split_at', 'split_first', 'split_last', 'chunks', 'windows',
+            'truncate', 'retain', 'drain', 'sort', 'sort_unstable', 'pop', 'binary_search')
+
+
+def r9(ctx):
+    """R09.9 the scans and lookups are answered by the shard workers, one command per worker and one answer read per
+    worker: a lookup that reads the shards from the calling thread overtakes queued merges (and the per-shard FIFO
+    order that makes `merge_external_noblock; lookup` see the merged track is lost).  Shares the response-protocol
+    rules of C05 / C10."""
+    ctx.rule('R09.9', 'lookups / usable-track scans go through the shard workers: one command and one answer per worker')
+    n = S.rule_exactly_once_responses(ctx, 'R09.9')
+    n += S.rule_fanout(ctx, 'R09.9')
+    ctx.floor('R09.9', n, 14)
+
+
+# which store functions may change the key set of a shard map (HashMap<u64, Track<..>>), by operation
+MEMBERSHIP = {
+    'remove': ('TrackStore::fetch_tracks',),
+    'remove_entry': ('TrackStore::fetch_tracks',),
+    'insert': ('TrackStore::add_track', 'TrackStore::add'),
+    'try_insert': ('TrackStore::add_track', 'TrackStore::add'),
+    'entry': ('TrackStore::add_track', 'TrackStore::add'),
+    'clear': ('TrackStore::clear',),
+    'drain': ('TrackStore::clear', 'TrackStore::fetch_tracks'),
+    'retain': (),
+    'extract_if': (),
+    'extend': (),
+}
+
+
+def r10(ctx):
+    """R09.10 a stored track stays stored until it is fetched or the store is cleared: the key set of a shard map is
+    changed only by add_track / add (insert), fetch_tracks (remove) and clear.  A worker arm or any other function
+    that takes a track out of its shard - even to put it back a moment later - makes it invisible to fetches, scans,
+    counts and the duplicate-id test in between."""
+    import ownership
+    import wiring
+    R = 'R09.10'
+    ctx.rule(R, 'who-may-change-membership: only add_track/add insert into, fetch_tracks removes from, clear empties a shard map')
+    F = ctx.F
+    callers = F.callers()
+    sites = {}
+    for b in F.all_bodies():
+        if wiring.skip_body(b):
+            continue
+        for c in b.find_calls():
+            if c.name in MEMBERSHIP and 'HashMap' in c.callee and c.args and c.args[0]['k'] in ('copy', 'move'):
+                ty = b.locals[c.args[0]['pl']['l']]
+                if 'HashMap<u64, track::Track<' in ty.replace('std::collections::', '').replace('hash_map::', ''):
+                    sites.setdefault((ownership.root_fn(b), c.name), []).append(c)
+                    ctx.read(b)
+    n = 0
+    for (f, op), cs in sorted(sites.items()):
+        allowed = {g for (g, o) in sites if o == op and any(g.endswith(s_) for s_ in MEMBERSHIP[op])}
+        ok = f in allowed
+        if not ok:
+            # a private helper all of whose callers are owners of this operation is an owner
+            seen, todo, ok = set(), [f], True
+            while todo and ok:
+                g = todo.pop()
+                if g in seen:
+                    continue
+                seen.add(g)
+                cl = {ownership.root_fn(cb) for cb, _ in callers.get(g, []) if not wiring.skip_body(cb)}
+                if not cl:
+                    ok = False
+                for h in cl:
+                    if not any(h.endswith(s_) for s_ in MEMBERSHIP[op]):
+                        if F.is_new_helper(h) if hasattr(F, 'is_new_helper') else False:
+                            todo.append(h)
+                        else:
+                            ok = False
+        n += 1
+        b0 = (F.get(f) or [None])[0]
+        ctx.check(ok, R, b0 or f, 'membership:%s<-%s' % (op, f.rsplit('::', 1)[-1]), 'owner of ' + op,
+                  '%s calls HashMap::%s on a shard map but is not one of the functions that may change which tracks a '
+                  'shard holds (%s: %s): between this call and its counterpart the track is missing from fetches, scans, '
+                  'per-shard counts and the duplicate-id test' % (f, op, op, list(MEMBERSHIP[op]) or 'nobody'), cs[0].ln)
+    ctx.floor(R, n, 4)
 
 
 def r1(ctx):
@@ -261,6 +345,25 @@ def r4(ctx):
                   'a removed track is not added to the returned vector', c.ln)
     dd = destroyed(b, r'^(std::option::Option<)?track::Track<')
     ctx.check(not dd, R, b, 'no-track-destroyed', '', 'a removed track can be destroyed: %s' % dd)
+    # every requested id is examined: what the fetch iterates is the `tracks` parameter itself, through no adaptor
+    # that drops, bounds or reorders elements (take(n), skip, filter, step_by, a sub-slice ...)
+    from lib import iteration_context
+    for owner, c in rem:
+        try:
+            srcs = iteration_context(ctx.F, b, owner, c.bb)
+        except Exception:
+            srcs = []
+        srcs = [x for x in srcs if hasattr(x, 'walk')]
+        if not srcs:
+            ctx.note(R, 'fetch_tracks: iterated expression of the removal loop not recovered: "every id examined" not evaluated')
+            continue
+        bad = sorted({y.name.rsplit('::', 1)[-1] for x in srcs for y in x.walk() if y.kind == 'call' and
+                      y.name.rsplit('::', 1)[-1] in DROPPING})
+        whole = any(p.root == ('param', 2) and not p.fields for x in srcs for p in x.places())
+        ctx.check(whole and not bad, R, b, 'every-requested-id-examined', repr(srcs)[:120],
+                  'fetch_tracks iterates %r: %s - requested ids beyond / outside that range are never looked up, existing '
+                  'tracks among them are not returned' % (srcs, ('through ' + ', '.join(bad)) if bad else
+                                                          'not the `tracks` parameter'), c.ln)
 
 
 def r5(ctx):
